@@ -7,7 +7,8 @@ Ca = lambda i: dict(k='call', id=i)
 No = dict(k='note', id=0)
 Iv = lambda i: dict(k='inv', id=i)
 BODIES = {'bridge': {'h1': [Ca(1)], 'h2': [Ca(1), No, Ca(2)], 'h3': [Ca(2), Iv(3), Ca(1)]},
-          'bridge2': {'h1': [Ca(1), Ca(2)], 'h2': [Ca(2), Ca(1)]}}
+          'bridge2': {'h1': [Ca(1), Ca(2)], 'h2': [Ca(2), Ca(1)]},
+          'bridge3': {'h1': [No, Iv(1)], 'h2': [Iv(2)], 'h3': [No], 'h4': [Iv(0), No, Iv(3)], 'h5': [No, No, Ca(1)]}}
 OUTS = ['ok', 'ok', 'ok', 'err:7', 'err:-32602', 'err:plain']
 
 def convert(beh, rng, name, bodies):
@@ -48,6 +49,16 @@ def directed(rng):
         add('interleave-alloc-%d' % v, [http('h1', [Ca(1), Ca(2)]), http('h2', [Ca(2), Ca(1)]), dict(a='gate', site='cli.req.lock', h='h1'), dict(a='gate', site='cli.req.lock', h='h2'),
                                         dict(a='gate', site='cli.req.lock', h='h2'), dict(a='gate', site='cli.req.lock', h='h1'), D, hret('h1.1'), hret('h2.2'), hret('h2.1'), hret('h1.2'), D])
         add('mixed-%d' % v, [http('h1', [No, Ca(1), Iv(2), Ca(3)]), http('h2', [No, No]), http('h3', [Iv(0)]), D, hret('h1.1'), hret('h2.1'), hret('h2.2'), D, hret('h1.2'), hret('h1.4'), D])
+        if v == 0:
+            # every composition of a body from calls, notifications and statically invalid members up to length 3,
+            # one request each: status (204 only for nothing-but-notifications), shape, own ids, error objects in place
+            import itertools
+            n = 0
+            for ln in (1, 2, 3):
+                for comp in itertools.product('cni', repeat=ln):
+                    n += 1; h = 'b%d' % n
+                    mem = [Ca(10 + i) if k == 'c' else (No if k == 'n' else Iv(20 + i if (i + n) % 2 else 0)) for i, k in enumerate(comp)]
+                    add('body-%s' % ''.join(comp), [http(h, mem), D] + [hret('%s.%d' % (h, i + 1)) for i, k in enumerate(comp) if k != 'i'] + [D])
         add('dup-in-body-%d' % v, [http('h1', [Ca(1), Ca(1)]), D, hret('h1.1'), hret('h1.2'), D])
         add('refused-%d' % v, [http('h1', [Ca(1)], 'notpost'), http('h2', [Ca(1)], 'badtype'), http('h3', [Ca(2)], 'badcharset'), http('h4', [Ca(1)], 'garbage'), http('h5', [], 'emptyarr'), http('h7', [Ca(1)], 'trailing'), http('h8', [No, Ca(2)], 'trailing'), http('h9', [No], 'trailing'),
                                http('h6', [Ca(1)]), D, hret('h6.1'), D])
@@ -60,7 +71,7 @@ def run_check(prop, tier, seed, replay=None):
     try:
         design = []
         if replay is None:
-            for cfg in ('bridge', 'bridge2'):
+            for cfg in ('bridge', 'bridge2', 'bridge3'):
                 design.append(C.model_check(cfg, 'MCBridge', timeout=900))
             w = C.scratch('tlcbad')
             try:
@@ -76,13 +87,13 @@ def run_check(prop, tier, seed, replay=None):
         else:
             scs = []
             n = 120 if tier == 'quick' else 2000
-            for ci, cfg in enumerate(('bridge', 'bridge2')):
+            for ci, cfg in enumerate(('bridge', 'bridge2', 'bridge3')):
                 for bi, beh in enumerate(C.simulate(cfg, 'MCBridge', n, 40, seed * 31 + ci)):
                     scs.append(convert(beh, rng, 'C18-%s-%d' % (cfg, bi), BODIES[cfg]))
             cov_info = {}
             if tier == 'thorough':
                 from . import cover
-                for cfg in ('bridge', 'bridge2'):
+                for cfg in ('bridge', 'bridge2', 'bridge3'):
                     behs, ne, ns = cover.behaviours(cfg, 'MCBridge', rng=rng)
                     scs += [convert(b, rng, 'C18-cover-%s-%d' % (cfg, i), BODIES[cfg]) for i, b in enumerate(behs)]
                     cov_info['cover_' + cfg] = dict(edges=ne, states=ns, paths=len(behs))
